@@ -133,6 +133,8 @@ def dtype_is_int(obj):
         return True
     if d == 'float':
         return False
+    if isinstance(d, tuple) and d[0] == 'sym':
+        return d[1]
     if isinstance(d, tuple) and d[0] == 'float-if-empty':
         if d[1] != 'int':
             return False
@@ -159,6 +161,20 @@ def np_fancy_store(ex, base, idx, v, st, node, transposed=False):
             ex.oblige('np-index-dtype', dtype_is_int(o), st, node,
                       'NumPy fancy indexing needs an integer dtype %s index array (IndexError)' % w)
     vals = ex.seq_of(v, st, node)
+    if m.items is not None and robj.items is not None and cobj.items is not None and vals.items is not None:
+        # concrete (run mode)
+        if len(robj.items) != len(cobj.items) or len(vals.items) != len(robj.items):
+            ex.oblige('np-shape', False, st, node, 'shape mismatch in fancy assignment')
+            raise PathEnd()
+        o2 = m.clone()
+        o2.items = [list(r) for r in m.items]
+        for a, b, x in zip(robj.items, cobj.items, vals.items):
+            if not (0 <= a < len(o2.items) and 0 <= b < len(o2.items[0])):
+                ex.oblige('bounds', False, st, node, 'fancy index out of range')
+                raise PathEnd()
+            o2.items[a][b] = float(x) if concrete(x) else x
+        st.heap[base.oid] = o2
+        return
     n = robj.length
     ex.oblige('np-shape', compare('==', n, cobj.length), st, node, 'index arrays of equal length')
     ex.oblige('np-shape', compare('==', n, vals.length), st, node, 'values broadcast to index length')
@@ -197,8 +213,15 @@ def np_slice_store(ex, base, t, v, st, node):
 @lib('np.fill_diagonal')
 def np_fill_diagonal(ex, args, kwargs, node, st):
     m = st.heap[args[0].oid]
-    v = vlit(args[1])
     ex.frame_write(m, None, st, node)
+    if m.items is not None:
+        o2 = m.clone()
+        o2.items = [list(r) for r in m.items]
+        for k in range(min(len(o2.items), len(o2.items[0]) if o2.items else 0)):
+            o2.items[k][k] = float(args[1]) if concrete(args[1]) else args[1]
+        st.heap[args[0].oid] = o2
+        return None
+    v = vlit(args[1])
     old = array2d_term(ex, m, st)
     new = fresh('diag', arr2sort(Val))
     i, j = z3.Consts('di!%d dj!%d' % (ex.qcount(), ex.qcount()), IntS)
